@@ -232,7 +232,8 @@ inductive Out
   | commit (c : Ctx) (h : Hash) (cert : Bool) (pc hpc certs : List Entry) -- CommitEvent with its vote sets
   | rice (c : Ctx) (h : Hash) (p : Prio)                                 -- RoundIndexChangeEvent
   | update (c : Ctx) (h : Hash) (pc hpc : List Entry)                    -- UpdateExistedHeaderEvent
-  | over (c : Ctx) (vt : VT) (chamber : Bool) (h : Hash) (count T : Nat) -- ghost: judgeVoteCount saw a quorum
+  | over (c : Ctx) (vt : VT) (chamber : Bool) (h : Hash) (count T : Nat) (members : List Entry)
+                                                                         -- ghost: judgeVoteCount saw a quorum (+ who is counted)
   | bug (what : Nat)                                                     -- ghost: fuel exhausted / impossible branch
 deriving DecidableEq, Repr
 
@@ -322,7 +323,7 @@ def exec : Nat → Voter → Call → Voter × List Out × Bool
     else if v.committed && vt == .precommit then ({ v with updateEv := some (v.ctx, h) }, [], true)
     else
       let ghost := match kindChamber? k with
-        | some ch => [Out.over v.ctx vt ch h count T]
+        | some ch => [Out.over v.ctx vt ch h count T (votesOf v.ws v.ctx ch vt h)]
         | none => []
       let v1 : Voter := match kindChamber? k with
         | some ch =>
